@@ -6,6 +6,7 @@ from __future__ import annotations
 
 import asyncio
 import contextvars
+import functools
 import gc
 import itertools
 import json
@@ -42,11 +43,35 @@ ANCHORS = [
     ('pjrpc/server/dispatcher.py', 'AsyncDispatcher._handle_rpc_request'),
     ('pjrpc/server/dispatcher.py', 'AsyncDispatcher._handle_rpc_method'),
 ]
+# how a method whose body is a coroutine is handed to the dispatcher. Except for 'coroutine-function' none of these is a coroutine
+# function for asyncio.iscoroutinefunction, yet calling any of them yields a coroutine that has to be awaited.
+# (a generic decorator WITHOUT functools.wraps has the signature (*args, **kwargs): positional params of such methods end in
+#  -32000 on the unchanged tree - known finding D4 of C04, parameter binding - so the undecorated-signature wrapper is
+#  represented by the delegating `def` only)
+CO_FLAVOURS = ['coroutine-function', 'object-with-async-__call__', 'async-def-behind-plain-decorator', 'plain-def-delegating',
+               'partial-of-object-with-async-__call__', 'lambda-delegating', 'partial-of-delegating-def-with-bound-keyword',
+               'bound-plain-method-delegating', 'partial-of-decorated-async-def']
 FLOORS = {'*': {'schedules': 12000, 'shapes': 1000, 'shapes-with>=2-completion-orders': 80, 'last-element-finishes-first': 50,
                 'max-in-flight>=2:concurrent': 200, 'sequential-mode-shapes': 60, 'points:method': 500, 'points:middleware': 500,
                 'points:error-handler': 200, 'profile:notification': 100, 'profile:plain-method': 100, 'profile:rpc-error': 100,
                 'profile:exception': 100, 'profile:plain-method-raising-TypeError': 50, 'profile:view-method': 50, 'profile:unregistered-method': 100, 'own-response-class-and-a-middleware-building-plain-responses': 200, 'elements:4': 2, 'plain-callable-middleware': 100, 'elements:1': 20,
-                'dispatcher-from-the-aiohttp-integration': 300}}
+                'dispatcher-from-the-aiohttp-integration': 300,
+                # methods returning a coroutine without being coroutine functions
+                'shapes-with-a-method-returning-a-coroutine-that-is-no-coroutine-function': 300,
+                'sequential-mode:method-returning-a-coroutine-that-is-no-coroutine-function': 150,
+                **{'coroutine-behind:' + f: 40 for f in CO_FLAVOURS},
+                # calls without params, methods with / without context, sequences of batches
+                'no-params-shapes': 300, 'no-params-schedules': 400, 'no-params-shapes:sequential-mode': 150,
+                'no-params-shapes-with>=2-completion-orders': 25, 'no-params-shapes:3-batches': 30,
+                'no-params-shapes:params-absent': 80, 'no-params-shapes:params-empty-array': 25, 'no-params-shapes:params-empty-object': 25,
+                'no-params-shapes:two-dispatchers-sharing-the-default-validator': 40,
+                'no-params-shapes:two-context-names-and-a-method-without-context': 20,
+                'no-params:context-by-keyword:parameterless': 300, 'no-params:no-context:parameterless': 200,
+                'no-params:context-positional:parameterless': 50, 'no-params:context-by-keyword:default-used': 80,
+                'no-params:no-context:default-used': 40,
+                'no-params:keyword-context-method-then-one-not-taking-that-name:same-batch': 100,
+                'no-params:keyword-context-method-then-one-not-taking-that-name:later-batch': 40,
+                'no-params:keyword-context-method-then-one-not-taking-that-name:later-batch-other-dispatcher': 15}}
 
 # (kind, outcome, points)
 PROFILES = [
@@ -65,6 +90,43 @@ ELEMENT = contextvars.ContextVar('vmon_c10_element', default='unset')
 def rpc_code(i):
     # application codes, and the two codes the library itself only ever uses for whole documents
     return {1: -32600, 3: -32700}.get(i, 3000 + i)
+
+
+def disguise(am, flavour):
+    """the same coroutine body `am(tok)` behind a callable of the given flavour (signature seen by the library: (tok))"""
+    def decorated():
+        @functools.wraps(am)
+        def wrapper(*args, **kwargs):
+            return am(*args, **kwargs)
+        return wrapper
+
+    class Obj:
+        async def __call__(self, tok):
+            return await am(tok)
+
+        def call(self, tok):
+            return am(tok)
+    if flavour == 'object-with-async-__call__':
+        return Obj()
+    if flavour == 'async-def-behind-plain-decorator':
+        return decorated()
+    if flavour == 'plain-def-delegating':
+        def delegating(tok):
+            return am(tok)
+        return delegating
+    if flavour == 'partial-of-object-with-async-__call__':
+        return functools.partial(Obj())
+    if flavour == 'lambda-delegating':
+        return lambda tok: am(tok)
+    if flavour == 'partial-of-delegating-def-with-bound-keyword':
+        def delegating2(tok, tag=None):
+            return am(tok)
+        return functools.partial(delegating2, tag='t')
+    if flavour == 'bound-plain-method-delegating':
+        return Obj().call
+    if flavour == 'partial-of-decorated-async-def':
+        return functools.partial(decorated())
+    return am
 
 
 def make_dispatcher(via, **kwargs):
@@ -86,7 +148,8 @@ class OwnResponse(v20.Response):
     """the dispatcher is configured with its own response class; a middleware may still answer with a plain Response"""
 
 
-def build(shape, concurrent, plain_mw=False, via=None, rewrap=False):
+def build(shape, concurrent, plain_mw=False, via=None, rewrap=False, co=None):
+    disguised = []
     points = {i: set(PROFILES[p][2]) for i, p in enumerate(shape)}
 
     def envelope(resp):
@@ -183,6 +246,11 @@ def build(shape, concurrent, plain_mw=False, via=None, rewrap=False):
                     if label in pts:
                         await CUR['sched'].point(tok, label)
                 return outcome(tok, what)
+            if co is not None:
+                m = disguise(am, CO_FLAVOURS[(co + i) % len(CO_FLAVOURS)])
+                if not asyncio.iscoroutinefunction(m):
+                    disguised.append(i)
+                return m
             return am
         disp.add(make(), f'm{i}')
     reqs, want = [], []
@@ -201,7 +269,7 @@ def build(shape, concurrent, plain_mw=False, via=None, rewrap=False):
             else:
                 want.append({'jsonrpc': '2.0', 'id': rid, 'error': {'code': -32000}})
         reqs.append(r)
-    return disp, json.dumps(reqs), want
+    return disp, json.dumps(reqs), want, len(disguised)
 
 
 def same_response(want, got):
@@ -222,8 +290,32 @@ def same_response(want, got):
     return True
 
 
-def run_shape(ctx, shape, concurrent, plain_mw=False, via=None, rewrap=False):
-    disp, text, want = build(shape, concurrent, plain_mw, via, rewrap)
+CO_CLASS = '[methods-returning-a-coroutine-that-are-no-coroutine-functions]'
+
+
+class _Control:
+    """records the mechanisms of a control run, nothing else"""
+
+    def __init__(self):
+        self.violations, self.notes, self.exhaustive = {}, {}, {}
+
+    def violation(self, mechanism, *a, **kw):
+        self.violations.setdefault(mechanism, {'count': 0})['count'] += 1
+
+    def hit(self, *a, **kw):
+        pass
+    ok = note = hit
+
+
+def run_shape(ctx, shape, concurrent, plain_mw=False, via=None, rewrap=False, co=None):
+    disp, text, want, disguised = build(shape, concurrent, plain_mw, via, rewrap, co)
+    if disguised:
+        ctx.hit('shapes-with-a-method-returning-a-coroutine-that-is-no-coroutine-function')
+        for i, p in enumerate(shape):
+            if PROFILES[p][0] in ('call', 'notify'):
+                ctx.hit('coroutine-behind:' + CO_FLAVOURS[(co + i) % len(CO_FLAVOURS)])
+        if not concurrent:
+            ctx.hit('sequential-mode:method-returning-a-coroutine-that-is-no-coroutine-function')
     if rewrap:
         ctx.hit('own-response-class-and-a-middleware-building-plain-responses')
     if via:
@@ -235,8 +327,10 @@ def run_shape(ctx, shape, concurrent, plain_mw=False, via=None, rewrap=False):
     n = len(shape)
     prefix = []
     orders = set()
+    found = []
     n_sched = 0
-    flag = ('concurrent' if concurrent else 'sequential') + (':plain-mw' if plain_mw else '') + (':rewrap' if rewrap else '')
+    flag = (('concurrent' if concurrent else 'sequential') + (':plain-mw' if plain_mw else '') + (':rewrap' if rewrap else '')
+            + (':coroutine-returning-callables' if co is not None else ''))
     ctx.hit('shapes')
     if n == 4:
         ctx.hit('elements:4')
@@ -283,8 +377,11 @@ def run_shape(ctx, shape, concurrent, plain_mw=False, via=None, rewrap=False):
                     max_live = max(max_live, len(live))
                 elif e[0] == 'finish':
                     live.discard(e[1])
-            cls = (tuple(shape), concurrent, plain_mw, via, finish_order)
+            cls = (tuple(shape), concurrent, plain_mw, via, finish_order) + (() if co is None else (co,))
             wit = dict(shape=shape_desc, concurrent_batch=concurrent, schedule=s.taken, request=text, returned=out,
+                       **({} if co is None else {'methods_registered_as': [
+                           CO_FLAVOURS[(co + i) % len(CO_FLAVOURS)] if PROFILES[p][0] in ('call', 'notify') else PROFILES[p][0]
+                           for i, p in enumerate(shape)]}),
                        trace=[list(e) for e in trace][:80], executions=list(CUR['exec']))
             if problem is None:
                 if s.parked or len(finish_order) != n:
@@ -315,7 +412,11 @@ def run_shape(ctx, shape, concurrent, plain_mw=False, via=None, rewrap=False):
                     if not f.done():
                         f.cancel()
                 world.run(asyncio.sleep(0))
-            if problem:
+            if problem and disguised:
+                found.append((problem, cls, wit))
+                if sum(1 for f in found if f[0] == problem) > 50:
+                    break
+            elif problem:
                 ctx.violation(problem, f'{flag}:{n}-elements', cls, **wit)
                 if ctx.violations[problem]['count'] > 50:
                     break
@@ -331,14 +432,251 @@ def run_shape(ctx, shape, concurrent, plain_mw=False, via=None, rewrap=False):
     gc.collect()
     never = [w for w in caught if 'never awaited' in str(w.message)]
     if never:
-        ctx.violation('coroutine-never-awaited', f'{flag}:{n}-elements', (tuple(shape), concurrent, 'warn'),
-                      shape=shape_desc, concurrent_batch=concurrent, warning=str(never[0].message))
+        found.append(('coroutine-never-awaited', (tuple(shape), concurrent, 'warn'),
+                      dict(shape=shape_desc, concurrent_batch=concurrent, warning=str(never[0].message))))
+    if found and disguised:
+        # attribution: the same shape with ordinary coroutine functions; what fails there as well is not due to the kind of callable
+        control = _Control()
+        run_shape(control, shape, concurrent, plain_mw, via, rewrap)
+        found = [(problem if problem in control.violations else problem + CO_CLASS, c, w) for problem, c, w in found]
+    for problem, c, w in found:
+        ctx.violation(problem, f'{flag}:{n}-elements', c, **w)
     if len(orders) >= 2:
         ctx.hit('shapes-with>=2-completion-orders')
     if prefix is None:
         ctx.exhaustive[f'all-schedules-of-each-generated-shape'] = ctx.exhaustive.get('all-schedules-of-each-generated-shape', True)
     else:
         ctx.exhaustive['all-schedules-of-each-generated-shape'] = False
+    ctx.note('max_schedules_in_one_shape', max(ctx.notes.get('max_schedules_in_one_shape', 0), n_sched))
+
+# ---------------------------------------------------------------------------------------------------------------------
+# batches whose elements carry NO params: parameterless methods with / without the server context, several batches in a row
+
+# context names the methods are registered under (two different ones are drawn per case)
+CTX_NAMES = ['session', 'ctx', 'request', 'context', 'user', 'app', 'state', 'env']
+# (how the context is taken: None / 'kw0' / 'kw1' = by keyword under the first / second drawn name / 'pos' = positionally,
+#  signature apart from the context: 'none' / 'default' = one parameter with a default, left out by the call /
+#  'given' = one parameter the call supplies / 'missing' = one required parameter the call leaves out (-32602, never runs),
+#  coroutine function or plain function, suspension point in the body)
+MKINDS = [
+    ('kw0', 'none', 'async', True), ('kw1', 'none', 'async', False), ('kw0', 'none', 'plain', False), (None, 'none', 'async', True),
+    (None, 'none', 'plain', False), (None, 'given', 'async', True), ('kw0', 'default', 'async', False), (None, 'default', 'async', True),
+    ('pos', 'none', 'async', True), ('kw1', 'given', 'async', False), (None, 'missing', 'async', False), ('kw1', 'none', 'async', True),
+    (None, 'none', 'async', False), ('kw1', 'default', 'plain', False),
+]
+NOPARAMS_CLASS = '[batches-of-calls-without-params-to-methods-with-and-without-context]'
+
+
+class Session:
+    """the application context handed to dispatch(): one object per served batch"""
+
+    def __init__(self, b):
+        self.b = b
+        self.tag = f'T{b}'
+
+
+def build_noparams(methods, names, concurrent, ndisp, swap):
+    """`ndisp` dispatchers (all validating with the library's default validator) holding one method per slot of `methods`;
+    every dispatcher has function objects of its own"""
+    disps = []
+    for d in range(ndisp):
+        async def mw(request, context, handler):
+            e = CUR['labels'][context.b][request.method]
+            s = CUR['sched']
+            s.mark('start', e)
+            ELEMENT.set(e)
+            resp = await handler(request, context)
+            s.mark('finish', e)
+            return resp
+        disp = pjrpc.server.AsyncDispatcher(middlewares=[mw], concurrent_batch=concurrent)
+        nm = list(names) if not (swap and d % 2) else list(names)[::-1]
+        for slot, k in enumerate(methods):
+            cmode, sig, co, pt = MKINDS[k]
+            name = f's{slot}'
+
+            def make(name=name, cmode=cmode, sig=sig, co=co, pt=pt):
+                def begin():
+                    e = CUR['labels'][CUR['batch']][name]
+                    CUR['exec'].append(e)
+                    return e
+
+                def result(e, c, x):
+                    return ['res', e, getattr(c, 'tag', None), x, ELEMENT.get()]
+                # the parameter list is spelled out per variant: the library looks at the real signature
+                cname = {'kw0': nm[0], 'kw1': nm[1], 'pos': 'c', None: None}[cmode]
+                params = ([cname] if cname else []) + {'none': [], 'default': ["x='dflt'"], 'given': ['x'], 'missing': ['x']}[sig]
+                src = (f"{'async ' if co == 'async' else ''}def m({', '.join(params)}):\n"
+                       f"    e = begin()\n"
+                       + (f"    await point(e)\n" if pt and co == 'async' else '')
+                       + f"    return result(e, {cname or 'None'}, {'x' if sig != 'none' else 'None'})\n")
+                ns = {'begin': begin, 'result': result, 'point': lambda e: CUR['sched'].point(e, 'm0')}
+                exec(src, ns)
+                return ns['m'], cname
+            m, cname = make()
+            if cmode == 'pos':
+                disp.add(m, name, context=cname, positional=True)
+            elif cmode:
+                disp.add(m, name, context=cname)
+            else:
+                disp.add(m, name)
+        disps.append(disp)
+    return disps
+
+
+def run_noparams(ctx, methods, batches, concurrent, names, empty='absent', ndisp=1, swap=False):
+    """batches = [[(slot, is_notification), ...], ...] served one after the other (batch b by dispatcher b % ndisp)"""
+    disps = build_noparams(methods, names, concurrent, ndisp, swap)
+    texts, wants, labels, runs = [], [], {}, []
+    for b, batch in enumerate(batches):
+        reqs, want, labels[b] = [], [], {}
+        for i, (slot, notify) in enumerate(batch):
+            cmode, sig, co, pt = MKINDS[methods[slot]]
+            e = 10 * b + i
+            labels[b][f's{slot}'] = e
+            r = {'jsonrpc': '2.0', 'method': f's{slot}'}
+            if sig == 'given':
+                r['params'] = [f'x{e}'] if i % 2 else {'x': f'x{e}'}
+            elif empty != 'absent':
+                r['params'] = [] if empty == 'empty-array' else {}
+            if sig != 'missing':
+                runs.append(e)
+            if not notify:
+                r['id'] = rid = [0, 'id1', -3, 4][i] if b % 2 == 0 else ['', 7, 'z', 1][i]
+                if sig == 'missing':
+                    want.append({'jsonrpc': '2.0', 'id': rid, 'error': {'code': -32602}})
+                else:
+                    x = {'none': None, 'default': 'dflt', 'given': f'x{e}'}[sig]
+                    want.append({'jsonrpc': '2.0', 'id': rid, 'result': ['res', e, f'T{b}' if cmode else None, x, e]})
+            reqs.append(r)
+            ctx.hit('no-params:' + ('context-by-keyword' if cmode in ('kw0', 'kw1') else 'context-positional' if cmode else 'no-context')
+                    + ':' + {'none': 'parameterless', 'default': 'default-used', 'given': 'params-given', 'missing': 'required-missing'}[sig])
+        texts.append(json.dumps(reqs))
+        wants.append(want)
+    all_labels = [e for b in range(len(batches)) for e in sorted(labels[b].values())]
+    flag = ('concurrent' if concurrent else 'sequential') + f':no-params({empty})'
+    fam = f'{flag}:{len(batches)}-batches-on-{ndisp}-dispatchers'
+    ctx.hit('no-params-shapes')
+    ctx.hit(f'no-params-shapes:params-{empty}')
+    ctx.hit(f'no-params-shapes:{len(batches)}-batches')
+    if ndisp > 1:
+        ctx.hit('no-params-shapes:two-dispatchers-sharing-the-default-validator')
+    if not concurrent:
+        ctx.hit('no-params-shapes:sequential-mode')
+    kinds = {MKINDS[methods[slot]][0] for batch in batches for slot, _ in batch
+             if MKINDS[methods[slot]][1] in ('none', 'default')}
+    if {'kw0', 'kw1'} <= kinds and None in kinds:
+        ctx.hit('no-params-shapes:two-context-names-and-a-method-without-context')
+    # order of service over the whole sequence: a parameterless keyword-context method, later a parameterless one that does not
+    # take that name (same batch / a later batch / a later batch on the other dispatcher)
+    seen = []
+    for b, batch in enumerate(batches):
+        for slot, _ in batch:
+            cmode, sig = MKINDS[methods[slot]][:2]
+            if sig not in ('none', 'default'):
+                continue
+            for cm0, b0 in seen:
+                if cm0 in ('kw0', 'kw1') and cmode != cm0:
+                    ctx.hit('no-params:keyword-context-method-then-one-not-taking-that-name:'
+                            + ('same-batch' if b0 == b else 'later-batch-other-dispatcher' if (b - b0) % ndisp else 'later-batch'))
+                    break
+            seen.append((cmode, b))
+    desc = dict(methods=[list(MKINDS[k]) for k in methods], context_names=list(names), batches=batches, concurrent_batch=concurrent,
+                dispatchers=ndisp, params_member=empty, second_dispatcher_swaps_the_names=swap)
+
+    async def serve(s):
+        outs = []
+        for b, text in enumerate(texts):
+            CUR['batch'] = b
+            outs.append(await disps[b % ndisp].dispatch(text, context=Session(b)))
+            s.mark('returned', b)
+        return outs
+
+    prefix, n_sched, orders = [], 0, set()
+    with warnings.catch_warnings(record=True) as caught:
+        warnings.simplefilter('always')
+        while prefix is not None and n_sched < 20000:
+            s = sched.Sched(prefix)
+            CUR['sched'], CUR['exec'], CUR['labels'] = s, [], labels
+            problem, outs = None, None
+            try:
+                outs = world.run(s.drive(lambda: serve(s)))
+            except sched.Deadlock as e:
+                problem = 'dispatch-waits-on-something-else:' + str(e)[:40]
+            except Exception as e:
+                problem = f'dispatch-raises:{type(e).__name__}'
+            n_sched += 1
+            trace = s.trace
+            for e in trace:
+                if e[0] == 'park':
+                    ctx.hit('points:method')
+            start_order = [e[1] for e in trace if e[0] == 'start']
+            finish_order = tuple(e[1] for e in trace if e[0] == 'finish')
+            live, max_live, late = set(), 0, False
+            for e in trace:
+                if e[0] == 'start':
+                    live.add(e[1])
+                    max_live = max(max_live, len(live))
+                elif e[0] == 'finish':
+                    live.discard(e[1])
+                elif e[0] == 'returned' and (live or sorted(x for x in finish_order if x // 10 == e[1]) != sorted(labels[e[1]].values())):
+                    late = True
+            wit = dict(desc, schedule=s.taken, requests=texts, returned=outs, trace=[list(e) for e in trace][:80],
+                       executions=list(CUR['exec']))
+            if problem is None:
+                if s.parked or late:
+                    problem = 'dispatch-returned-while-an-element-was-still-in-flight'
+                elif sorted(CUR['exec']) != sorted(runs):
+                    problem = 'method-not-executed-exactly-once'
+                else:
+                    for b, (want, out) in enumerate(zip(wants, outs)):
+                        doc = None if out is None else strictjson.decode(out[0])
+                        if not want:
+                            if out is not None:
+                                problem = 'response-for-all-notification-batch'
+                        elif doc is None or not isinstance(doc, list):
+                            problem = 'no-response-array'
+                        elif not same_response(want, doc):
+                            ids_w, ids_g = [w['id'] for w in want], [g.get('id') for g in doc if isinstance(g, dict)]
+                            if sorted(map(repr, ids_w)) == sorted(map(repr, ids_g)) and ids_w != ids_g:
+                                problem = 'response-array-not-in-request-order'
+                            else:
+                                problem = 'element-not-answered-with-its-own-result-or-error'
+                        if problem:
+                            wit['batch_number'] = b
+                            wit['expected'] = want
+                            break
+                if problem is None and not concurrent:
+                    if max_live > 1:
+                        problem = 'sequential-mode:two-elements-in-flight'
+                    elif start_order != all_labels:
+                        problem = 'sequential-mode:elements-not-started-in-request-order'
+            if s.parked:
+                for f in s.parked.values():
+                    if not f.done():
+                        f.cancel()
+                world.run(asyncio.sleep(0))
+            cls = (tuple(methods), str(batches), concurrent, empty, ndisp, swap, finish_order)
+            if problem:
+                ctx.violation(problem + NOPARAMS_CLASS, fam, cls, **wit)
+                if ctx.violations[problem + NOPARAMS_CLASS]['count'] > 50:
+                    break
+            else:
+                if concurrent and max_live >= 2:
+                    ctx.hit('max-in-flight>=2:concurrent')
+                orders.add(finish_order)
+                ctx.ok(fam, cls, sample=wit if len(s.taken) >= 2 and list(finish_order) != all_labels else None)
+            ctx.hit('schedules')
+            ctx.hit('no-params-schedules')
+            prefix = sched.next_prefix(s.taken, s.branching)
+    gc.collect()
+    never = [w for w in caught if 'never awaited' in str(w.message)]
+    if never:
+        ctx.violation('coroutine-never-awaited' + NOPARAMS_CLASS, fam, (tuple(methods), str(batches), concurrent, 'warn'), **desc,
+                      warning=str(never[0].message))
+    if len(orders) >= 2:
+        ctx.hit('no-params-shapes-with>=2-completion-orders')
+    ctx.exhaustive['all-schedules-of-each-generated-shape'] = (ctx.exhaustive.get('all-schedules-of-each-generated-shape', True)
+                                                               and prefix is None)
     ctx.note('max_schedules_in_one_shape', max(ctx.notes.get('max_schedules_in_one_shape', 0), n_sched))
 
 
@@ -373,6 +711,36 @@ def gen(ctx):
             for via in ('aiohttp-app', 'aiohttp-endpoint'):
                 yield 'shape', {'shape': shape, 'concurrent': False, 'via': via}
                 yield 'shape', {'shape': shape, 'concurrent': True, 'via': via}
+    # the coroutine bodies of the shape handed over as callables that are no coroutine functions (rotating flavours, mixed with
+    # ordinary coroutine functions), both batch modes
+    coro = [s for s in shapes if any(PROFILES[p][0] in ('call', 'notify') for p in s)]
+    small = [s for s in coro if len(s) <= 2]
+    for shape in small + rng.sample([s for s in coro if len(s) == 3], 1200 if full else 140) + \
+            rng.sample([s for s in coro if len(s) >= 4], 300 if full else 6):
+        k = rng.randrange(len(CO_FLAVOURS))
+        for concurrent in (True, False):
+            yield 'shape', {'shape': shape, 'concurrent': concurrent, 'co': k}
+        if rng.random() < 0.1:
+            yield 'shape', {'shape': shape, 'concurrent': rng.random() < 0.5, 'co': (k + 3) % len(CO_FLAVOURS), 'plain_mw': True}
+    # calls without params to parameterless methods with / without context, several batches in a row
+    fact = [1, 1, 2, 6, 24]
+    made = 0
+    while made < (1500 if full else 240):
+        methods = rng.sample(range(len(MKINDS)), rng.randint(3, 5))
+        nb = rng.choice([1, 2, 2, 3])
+        batches, cost = [], 1
+        for _ in range(nb):
+            slots = rng.sample(range(len(methods)), rng.randint(2, min(4, len(methods))))
+            batches.append([[slot, int(rng.random() < 0.15)] for slot in slots])
+            cost *= fact[sum(1 for slot in slots if MKINDS[methods[slot]][3])]
+        if cost > (1500 if full else 100):
+            continue
+        made += 1
+        args = {'methods': methods, 'batches': batches, 'names': rng.sample(CTX_NAMES, 2),
+                'empty': rng.choice(['absent', 'absent', 'empty-array', 'empty-object']), 'ndisp': rng.choice([1, 1, 2]),
+                'swap': rng.random() < 0.5}
+        yield 'noparams', dict(args, concurrent=True)
+        yield 'noparams', dict(args, concurrent=False)
 
 
-KINDS = {'shape': run_shape}
+KINDS = {'shape': run_shape, 'noparams': run_noparams}
